@@ -91,6 +91,11 @@ func LdRead(r io.Reader, zeroLenAsEOF bool, maxReadBytes uint64) ([]byte, error)
 
 	buf := make([]byte, l)
 	if _, err := io.ReadFull(r, buf); err != nil {
+		if err == io.EOF {
+			// The length prefix was read but none of the l > 0 bytes it announces: the stream was
+			// cut inside a section, which must not look like a clean end of the archive.
+			err = io.ErrUnexpectedEOF
+		}
 		return nil, err
 	}
 
